@@ -108,6 +108,11 @@ class FnTranslator:
             return False
 
     def E(self, n) -> str:
+        opaque = self.fspec.get("opaque", {})
+        if opaque and not isinstance(n, (ast.Name, ast.Constant)):
+            txt = ast.unparse(n)
+            if txt in opaque:
+                return opaque[txt]
         if isinstance(n, ast.Constant):
             if isinstance(n.value, bool):
                 return "true" if n.value else "false"
@@ -177,6 +182,8 @@ class FnTranslator:
         raise Untranslatable("expression " + type(n).__name__)
 
     def cmp(self, op, l, r):
+        if isinstance(op, (ast.Is, ast.IsNot)) and isinstance(r, ast.Constant) and r.value is None:
+            return f"({self.E(l)}).isNone" if isinstance(op, ast.Is) else f"({self.E(l)}).isSome"
         if isinstance(op, ast.In):
             lo, hi = self.range_of(r)
             return f"(Py.inRange {lo} {hi} {self.atom(self.E(l))})"
@@ -418,6 +425,9 @@ class FnTranslator:
         sig, ptypes = [], []
         for p in params:
             t = self.types.get(p, "Q")
+            if t == "Dropped":
+                ptypes.append(t)
+                continue
             if t == "PaintTarget":
                 self.types[p] = t
                 ptypes.append(t)
@@ -449,6 +459,10 @@ class FnTranslator:
             body, ret = self.block(self.fn.body, 1)
             if not ret:
                 raise Untranslatable("function does not return")
+        if fs.get("generic"):
+            sig.insert(0, fs["generic"])
+        for pname in dict.fromkeys(fs.get("opaque", {}).values()):
+            sig.append(f"({pname} : {fs.get('opaque_type', 'Q')})")
         lean = fs["lean"]
         txt = f"/-- translated from `{self.mod.path.name}` `{self.qual}` -/\n"
         txt += f"def {lean} {' '.join(sig)} : Py.M {fs['ret']} := do\n" + "\n".join(body) + "\n"
@@ -518,6 +532,12 @@ SPECS = {
     "TrPaint": ("src/nanoemoji/paint.py", {"imports": ["NanoVerif.Model.Transformed", "NanoVerif.Generated.TrFixed"], "functions": {
         "transformed": {"lean": "transformed", "ret": "Enc", "style": "imperative", "params": {"transform": "Aff", "target": "PaintTarget"},
                         "ctors": _PAINT_CTORS, "externs": {"int16_safe": "int16_safe", "f2dot14_safe": "f2dot14_safe"}},
+    }}),
+    "TrConfig": ("src/nanoemoji/config.py", {"functions": {
+        "_pop_flag": {"lean": "pop_flag", "ret": "(Option α)", "generic": "{α : Type}", "style": "imperative",
+                      "params": {"config": "Dropped", "name": "Dropped"}, "opaque_type": "Option α",
+                      "opaque": {"config.pop(name, None)": "file_value", "getattr(FLAGS, name)": "flag_in",
+                                 "getattr(_DEFAULT_CONFIG, name)": "default_in"}},
     }}),
     "TrColorGlyph": ("src/nanoemoji/color_glyph.py", {"functions": {
         "scale_viewbox_to_font_metrics": {"lean": "scale_viewbox_to_font_metrics", "ret": "Aff", "params": {"view_box": "Rect"}},
